@@ -57,10 +57,10 @@ def fmt_effect(e: Event) -> str:
         s = f"push:{e.get('cls')}"
         if e.get("same"):
             s += "(same)"
-        if e.get("delayed"):
-            s += "+delay"
+        if e.get("delayed") in ("yes", "maybe"):
+            s += "+delay" + ("?" if e.get("delayed") == "maybe" else "")
         if e.get("loop"):
-            s += "*"
+            s += "*" if e.get("loop") == "opt" else "+"
         return s
     if e.kind == "mark":
         return "mark" if e.get("incoming") else "mark(other)"
@@ -80,7 +80,7 @@ def fmt_effect(e: Event) -> str:
     if e.kind == "auto":
         s = f"{e.get('api')}"
         if e.get("api") == "queue.push":
-            s += f":{e.get('cls')}" + ("+delay" if e.get("delayed") else "")
+            s += f":{e.get('cls')}" + ("+delay" if e.get("delayed") in ("yes", "maybe") else "")
         if e.get("loop"):
             s += "*"
         return s
